@@ -122,6 +122,11 @@ def mk_gbox(kind, crs="epsg:3857"):
         a, e = Real("a"), Real("e")
         assume(And(a != 0, e != 0))
         A = Affine(a, 0.0, c, 0.0, e, f)
+    elif kind.startswith("rotgrid"):
+        # rational rotation x grid pixel size, symbolic origin (keeps the resolution recovery of the
+        # single-pixel fallback linear: the Cholesky inside decompose_rws is exact)
+        cs, sn, rx, ry = {"rotgrid1": (F(3, 5), F(4, 5), F(10), F(-10)), "rotgrid2": (F(5, 13), F(-12, 13), F(1, 4), F(1, 3))}[kind]
+        A = Affine(rconst(cs * rx), rconst(-sn * ry), c, rconst(sn * rx), rconst(cs * ry), f)
     else:
         a, b, d, e = Real("a"), Real("b"), Real("d"), Real("e")
         assume(And(a * e - b * d != 0, Or(abs(b) >= F(1, 10**6), abs(d) >= F(1, 10**6))))
@@ -172,9 +177,25 @@ def build_src(g, ny, nx, ysl, xsl, drop_crs_coord=False):
 
 
 def check_transform(T, g, ysl, xsl, label="recovered"):
+    """the recovered affine maps every point of new pixel (i, j) -- centre AND extent -- to where
+    the original mapped it: new coordinate p along an axis is original  start + 1/2 + (p - 1/2)*k"""
     (ys, yn, yk), (xs, xn, xk) = ysl, xsl
     j, i = Int("probe_row", 0, yn - 1), Int("probe_col", 0, xn - 1)
     h = F(1, 2)
+    # pixel extent: the three corners (0,0), (1,0), (0,1) of the new pixel grid pin the whole affine
+    for nm, (cu, cv) in (("origin", (0, 0)), ("x_edge", (1, 0)), ("y_edge", (0, 1))):
+        ou = xs + h + (cu - h) * xk
+        ov = ys + h + (cv - h) * yk
+        if symx.concrete_mode():
+            px, py = T * (float(cu), float(cv))
+            wx, wy = g.pix2wld(float(ou), float(ov))
+            tol = F(1, 10**6)
+            sc = max(abs(F(v)) for v in g.affine[:6][:2] + g.affine[:6][3:5]) * max(abs(xk), abs(yk))
+            prove(f"{label}_extent_{nm}", And(abs(F(px) - F(wx)) <= tol * (sc + abs(F(wx))), abs(F(py) - F(wy)) <= tol * (sc + abs(F(wy)))))
+        else:
+            px, py = T * (cu, cv)
+            wx, wy = g.pix2wld(ou, ov)
+            prove(f"{label}_extent_{nm}", And(px == wx, py == wy))
     if symx.concrete_mode():
         px, py = T * (i + 0.5, j + 0.5)
         wx, wy = g.pix2wld(xs + i * xk + 0.5, ys + j * yk + 0.5)
@@ -255,10 +276,10 @@ def h_single_pixel_axis(which, with_crs_coord):
         check_transform(gb.affine, g, ysl, xsl)
 
 
-def h_rotated(yn, yk, xn, xk):
+def h_rotated(yn, yk, xn, xk, kind="rot"):
     import odc.geo._xr_interop as xr
 
-    g, ny, nx = mk_gbox("rot")
+    g, ny, nx = mk_gbox(kind)
     ysl = (slice_params("y", yn, yk, ny), yn, yk)
     xsl = (slice_params("x", xn, xk, nx), xn, xk)
     src = build_src(g, ny, nx, ysl, xsl)
@@ -308,8 +329,9 @@ OBLIGATIONS = [
     Ob("X2_single_pixel_axis", h_single_pixel_axis, fixed(*[dict(which=w, with_crs_coord=c) for w in ("y", "x") for c in (True, False)]),
        descr="an axis of length 1: the GeoTransform fallback resolution is used; without the CRS coordinate no GeoBox rather than a wrong one",
        functions=("odc.geo._xr_interop._extract_transform", "odc.geo._xr_interop._extract_geo_transform", "odc.geo.math.affine_from_axis"), stubs=("passive xarray container", "float tokens"), setup=setup, timeout_ms=20000),
-    Ob("X3_rotated", h_rotated, tiered(SL_Q[:2], SL_T[:5]), descr="rotated/sheared GeoBox: pixel-space labels + encoded transform compose to original o slice",
-       functions=("odc.geo._xr_interop._mk_pixel_coord", "odc.geo._xr_interop._extract_transform"), bounds="fully symbolic affine with shear/rotation; slices as X1", stubs=("passive xarray container", "LinSeq"), setup=setup, timeout_ms=20000),
+    Ob("X3_rotated", h_rotated, tiered(SL_Q[:2] + [dict(yn=1, yk=1, xn=3, xk=1, kind="rotgrid1"), dict(yn=4, yk=1, xn=1, xk=1, kind="rotgrid2")],
+                                       SL_T[:5] + [dict(yn=1, yk=1, xn=3, xk=1, kind="rotgrid1"), dict(yn=4, yk=1, xn=1, xk=1, kind="rotgrid2"), dict(yn=1, yk=1, xn=1, xk=1, kind="rotgrid1"), dict(yn=1, yk=1, xn=5, xk=-2, kind="rotgrid2")]), descr="rotated/sheared GeoBox: pixel-space labels + encoded transform compose to original o slice",
+       functions=("odc.geo._xr_interop._mk_pixel_coord", "odc.geo._xr_interop._extract_transform"), bounds="fully symbolic affine with shear/rotation; slices as X1 plus single-row / single-column results", stubs=("passive xarray container", "LinSeq"), setup=setup, timeout_ms=60000, fresh_only=True),
     Ob("X4_gcp_pixel_labels", h_gcp_pixel_labels, tiered(SL_Q[:2], SL_T[:5]), descr="GCP GeoBox pixel labels: the crop/stride affine is recovered from the labels", functions=("odc.geo._xr_interop._mk_pixel_coord", "odc.geo._xr_interop._extract_transform"),
        stubs=("passive xarray container", "LinSeq"), setup=setup),
 ]
